@@ -16,6 +16,38 @@ use std::sync::Arc;
 pub static NUM_LIVE_CHUNKS: AtomicUsize = AtomicUsize::new(0);
 pub static NUM_LIVE_BYTES: AtomicUsize = AtomicUsize::new(0);
 
+/// Verification-only registry of live chunks (compiled only with
+/// `--cfg woodpile_verif`): address -> (length, allocation ordinal).
+#[cfg(woodpile_verif)]
+pub mod verif_registry {
+    use std::collections::BTreeMap;
+    use std::sync::Mutex;
+
+    static LIVE: Mutex<(u64, BTreeMap<usize, (usize, u64)>)> = Mutex::new((0, BTreeMap::new()));
+
+    pub fn insert(addr: usize, len: usize) {
+        let mut live = LIVE.lock().unwrap_or_else(|e| e.into_inner());
+        let ordinal = live.0;
+        live.0 += 1;
+        live.1.insert(addr, (len, ordinal));
+    }
+
+    pub fn remove(addr: usize) {
+        let mut live = LIVE.lock().unwrap_or_else(|e| e.into_inner());
+        live.1.remove(&addr);
+    }
+
+    /// Returns `(address, length, allocation ordinal)` for every live chunk,
+    /// and the ordinal the next chunk will get.
+    pub fn snapshot() -> (Vec<(usize, usize, u64)>, u64) {
+        let live = LIVE.lock().unwrap_or_else(|e| e.into_inner());
+        (
+            live.1.iter().map(|(a, (l, o))| (*a, *l, *o)).collect(),
+            live.0,
+        )
+    }
+}
+
 /// Conceptually, [`Chunk`] is a `Box<[u8]>`, but we convert to/from
 /// [`NonNull`] at construction and destruction in order to avoid
 /// aliasing footguns.
@@ -30,6 +62,8 @@ impl Chunk {
         use std::sync::atomic::Ordering;
         NUM_LIVE_CHUNKS.fetch_add(1, Ordering::Relaxed);
         NUM_LIVE_BYTES.fetch_add(storage.len(), Ordering::Relaxed);
+        #[cfg(woodpile_verif)]
+        verif_registry::insert(storage.as_ptr() as usize, storage.len());
 
         Chunk {
             storage: NonNull::from(Box::leak(storage)),
@@ -55,6 +89,8 @@ impl Drop for Chunk {
         #[allow(unused_mut)] // needed for test-only memset.
         let mut storage = unsafe { Box::from_raw(self.storage.as_mut()) };
         let capacity = storage.len();
+        #[cfg(woodpile_verif)]
+        verif_registry::remove(storage.as_ptr() as usize);
 
         #[cfg(debug_assertions)]
         for i in 0..capacity {
